@@ -330,7 +330,7 @@ macro_rules! mk_impl {
                 }
             }
 
-            fn gen_cfg(rng: &mut Rng, zero: bool) -> Cfg {
+            fn gen_cfg(rng: &mut Rng, zero: bool, tok_scale: $U, val_scale: $U) -> Cfg {
                 let u = UNIT;
                 let mut c = Cfg::default();
                 if zero {
@@ -365,8 +365,9 @@ macro_rules! mk_impl {
                 if rng.chance(1, 6) { c.reserve_factor = [u / 2, u / 10, u + u / 20, 0][rng.below(4) as usize]; }
                 if rng.chance(1, 8) { c.max_pnl = [u / 10, u / 20, u / 2, u / 2]; }
                 if rng.chance(1, 8) { c.max_pnl = [u / 10 * 3, u / 10 * 6, u / 2, u / 2]; }
-                if rng.chance(1, 10) { c.max_pool_amount = (10 as $U).pow(9 + rng.below(4) as u32); }
-                if rng.chance(1, 12) { c.max_pool_value_for_deposit = PS * (10 as $U).pow(10 + rng.below(4) as u32); }
+                // caps relative to the history's token / value scale so that they actually bind
+                if rng.chance(1, 6) { c.max_pool_amount = tok_scale.saturating_mul([1u64, 2, 5, 20][rng.below(4) as usize] as $U); }
+                if rng.chance(1, 8) { c.max_pool_value_for_deposit = val_scale.saturating_mul([1u64, 3, 10][rng.below(3) as usize] as $U); }
                 if rng.chance(1, 6) { c.borrowing_skip = false; }
                 if rng.chance(1, 6) { c.kink[0] = 0; } // kink model off
                 if rng.chance(1, 8) { c.ignore_oi_for_usage = true; }
@@ -387,18 +388,35 @@ macro_rules! mk_impl {
                         2 => { m.swap_impact = TestPool { long_amount: 0, short_amount: 0 }; }
                         3 => { m.fee.long_amount = amount(rng, liq_l / 1000); m.fee.short_amount = amount(rng, liq_s / 1000); }
                         4 | 5 => {
-                            // open interest: usd on both collateral sides, tokens ~ usd / price with some pnl
+                            // open interest: usd on both collateral sides, tokens ~ usd / price with some pnl;
+                            // utilisation from light to close to the reserve limit, pnl from negative to above the caps
                             let side_long = rng.chance(1, 2);
                             let usd_cap = if side_long { liq_l.saturating_mul(px.long) } else { liq_s.saturating_mul(px.short) };
-                            let usd = amount(rng, usd_cap / 4);
+                            let usd = match rng.below(6) { 0 => usd_cap / 8, 1 => usd_cap / 3, 2 => usd_cap / 3 * 2, 3 => usd_cap / 10 * 9, _ => amount(rng, usd_cap / 4) };
                             let usd2 = if rng.chance(1, 2) { 0 } else { amount(rng, usd_cap / 16) };
                             let tok = |rng: &mut Rng, v: $U| -> $U {
                                 let t = v / px.long.max(1);
-                                match rng.below(4) { 0 => t, 1 => t.saturating_add(t / 10), 2 => t - t / 10, _ => t.saturating_add(t / 2) }
+                                match rng.below(8) { 0 | 1 => t, 2 => t.saturating_add(t / 10), 3 => t - t / 10, 4 => t.saturating_add(t / 2), 5 => t / 2, 6 => t.saturating_add(t / 100), _ => t.saturating_mul(2) }
                             };
-                            let (o, t) = if side_long { (&mut m.open_interest.0, &mut m.open_interest_in_tokens.0) } else { (&mut m.open_interest.1, &mut m.open_interest_in_tokens.1) };
-                            o.long_amount = usd; o.short_amount = usd2;
-                            t.long_amount = tok(rng, usd); t.short_amount = tok(rng, usd2);
+                            {
+                                let (o, t) = if side_long { (&mut m.open_interest.0, &mut m.open_interest_in_tokens.0) } else { (&mut m.open_interest.1, &mut m.open_interest_in_tokens.1) };
+                                o.long_amount = usd; o.short_amount = usd2;
+                                t.long_amount = tok(rng, usd); t.short_amount = tok(rng, usd2);
+                            }
+                            if rng.chance(1, 2) {
+                                // positions have been open for a while: cumulative factors, borrowed totals, clocks in the past
+                                let f = UNIT / 1000 * (rng.below(50) as $U);
+                                m.borrowing_factor.long_amount = f; m.borrowing_factor.short_amount = f / 2;
+                                let oi_l = m.open_interest.0.long_amount.saturating_add(m.open_interest.0.short_amount);
+                                let oi_s = m.open_interest.1.long_amount.saturating_add(m.open_interest.1.short_amount);
+                                let tb = |oi: $U, f: $U| -> $U { ((oi as u128).saturating_mul(f as u128) / (UNIT as u128)).min(<$U>::MAX as u128) as $U };
+                                m.total_borrowing.long_amount = tb(oi_l, f);
+                                m.total_borrowing.short_amount = tb(oi_s, f / 2);
+                                m.now += [60u64, 3600, 86_400, 1_000_000][rng.below(4) as usize];
+                                let now = m.now;
+                                m.clocks.insert(ClockKind::Borrowing, now - [1u64, 60, 3600, 50_000][rng.below(4) as usize].min(now));
+                                if rng.chance(1, 2) { m.clocks.insert(ClockKind::PriceImpactDistribution, now - [1u64, 600, 40_000][rng.below(3) as usize].min(now)); }
+                            }
                         }
                         6 => { m.position_impact.long_amount = amount(rng, liq_l / 50); }
                         7 => {
@@ -439,9 +457,6 @@ macro_rules! mk_impl {
             /// One history.  Returns (tag flags, Coq term).
             pub fn history(rng: &mut Rng, mix: &Mix) -> (String, String) {
                 let zero = rng.below(1000) < mix.zero_fee_zero_impact;
-                let cfg = gen_cfg(rng, zero);
-                let (div, adj): ($U, $U) = if W == 64 { (1, 10_000) } else { ((10 as $U).pow(DEC - 9), (10 as $U).pow(10)) };
-                let mut m = M::new(div, adj, cfg.build());
                 let px = Px {
                     long: PS * [1u64, 2, 17, 120, 121, 2500, 60_000][rng.below(7) as usize] as $U,
                     short: if rng.chance(3, 4) { PS } else { PS * [2u64, 3, 120][rng.below(3) as usize] as $U },
@@ -451,7 +466,11 @@ macro_rules! mk_impl {
                 // (u64/9: 1e10..1e13, u128/20: 1e21..1e27 value units) and occasionally far below
                 let vexp: u32 = if W == 64 { 10 + rng.below(4) as u32 } else { 21 + rng.below(7) as u32 };
                 let vexp = if rng.chance(1, 8) { vexp - 4 } else { vexp };
-                let tok_scale: $U = ((10 as $U).pow(vexp) / px.long).max(1);
+                let val_scale: $U = (10 as $U).pow(vexp);
+                let tok_scale: $U = (val_scale / px.long).max(1);
+                let cfg = gen_cfg(rng, zero, tok_scale, val_scale);
+                let (div, adj): ($U, $U) = if W == 64 { (1, 10_000) } else { ((10 as $U).pow(DEC - 9), (10 as $U).pow(10)) };
+                let mut m = M::new(div, adj, cfg.build());
                 if rng.chance(1, 4) {
                     // pre-populated market
                     m.primary.long_amount = amount(rng, tok_scale);
